@@ -52,13 +52,26 @@ class FakeElement:
         child._parent = None
 
     def insert(self, i, child):
+        # lxml: the child goes in front of the node that is at index i NOW (before the child is unlinked from where it is)
+        n = len(self._children)
+        if i < 0:
+            i = max(0, n + i)
+        ref = self._children[i] if i < n else None
+        if ref is child:
+            return
         if child._parent is not None:
             child._parent.remove(child)
-        self._children.insert(i, child)
+        if ref is None:
+            self._children.append(child)
+        else:
+            self._children.insert(self.index(ref), child)
         child._parent = self
 
     def append(self, child):
-        self.insert(len(self._children), child)
+        if child._parent is not None:
+            child._parent.remove(child)
+        self._children.append(child)
+        child._parent = self
 
     def extend(self, children):
         for c in list(children):
